@@ -1,6 +1,1442 @@
-"""Statement-level families of C01 (F5 ...)."""
-BUILDERS = {}
+"""Statement-level families of C01: F5 control flow, F6 FOR at the type limits,
+F7 SELECT CASE, F8 procedures, F9 scoping / CONST / DEFtype, F10 arrays and
+records, F11 device statements, F12 scripted environments.
+
+A family is a list of small picklable descriptors; `BUILDERS[tag](desc)`
+builds a `c01_oracle.Case` whose items are the programs.  Statement *specs*
+are nested tuples; `mk(spec, ...)` turns a spec into fresh AST nodes (a node
+must never occur twice in one program: `render` stores line numbers on it).
+"""
+import itertools
+
+from . import ast as A
+from ..c01_oracle import Item, Case
+from ..ref import values as V
+from ..ref.values import INTEGER, LONG, SINGLE, DOUBLE, STRING
+
+SUF = V.SUFFIX_OF
+NUM = [INTEGER, LONG, SINGLE, DOUBLE]
+TNAME = {INTEGER: 'INTEGER', LONG: 'LONG', SINGLE: 'SINGLE', DOUBLE: 'DOUBLE', STRING: 'STRING'}
+
+
+def L(text):
+    return A.Lit(text)
+
+
+def N(text):
+    text = str(text)
+    return A.Un('-', A.Lit(text[1:])) if text.startswith('-') else A.Lit(text)
+
+
+def Vr(name):
+    return A.Var(name)
+
+
+def P(*items):
+    """PRINT e1; e2; ...  (items separated by ';', newline at the end)"""
+    out = []
+    for i, it in enumerate(items):
+        if i:
+            out.append(';')
+        out.append(it)
+    return A.Print(out)
+
+
+def Pn(*items):
+    """PRINT e1; e2;   (no newline)"""
+    out = []
+    for it in items:
+        out.append(it)
+        out.append(';')
+    return A.Print(out)
+
+
+def inc(name, by='1'):
+    return A.Assign(Vr(name), A.Bin('+', Vr(name), L(by)))
+
+
+def let(name, e):
+    return A.Assign(Vr(name), e)
+
+
+# ---------------------------------------------------------------------------
+# F5 control structures
+
+F5_SIMPLE = [('p',), ('inc',), ('px',)]
+F5_CONDS = ['x=0', 'x', 'x>1', 'notx']
+F5_FORS = ['1to3', '3to1', '3to1s-1', 'f0to1s.5', '1to2.5', 'xtox+1']
+F5_DOS = ['forever', 'do_while', 'do_until', 'loop_while', 'loop_until']
+
+
+def _cond(c):
+    if c == 'x=0':
+        return A.Bin('=', Vr('x%'), L('0'))
+    if c == 'x':
+        return Vr('x%')
+    if c == 'x>1':
+        return A.Bin('>', Vr('x%'), L('1'))
+    if c == 'notx':
+        return A.Un('NOT', Vr('x%'))
+    raise ValueError(c)
+
+
+class _Ctx:
+    """labels / subroutines collected while building one item"""
+
+    def __init__(self):
+        self.n = 0
+        self.subs = []        # statements after END
+        self.flags = set()
+
+    def label(self):
+        self.n += 1
+        return 'lb%d' % self.n
+
+
+def mk(spec, depth, cx, tagn):
+    """spec -> list of fresh statements.  depth = nesting depth of the
+    statement (selects the loop counter); tagn = running tag counter [n]"""
+    k = spec[0]
+    d = str(depth)
+    if k == 'p':
+        tagn[0] += 1
+        return [A.Print([A.Str('t%d' % tagn[0])])]
+    if k == 'inc':
+        return [inc('x%')]
+    if k == 'px':
+        return [A.Print([Vr('x%')])]
+    if k == 'exitfor':
+        return [A.Exit('FOR')]
+    if k == 'exitdo':
+        return [A.Exit('DO')]
+    if k == 'end':
+        cx.flags.add('end')
+        return [A.End()]
+    if k == 'if':
+        return [A.If([(_cond(spec[1]), mkl(spec[2], depth + 1, cx, tagn))])]
+    if k == 'ifelse':
+        return [A.If([(_cond(spec[1]), mkl(spec[2], depth + 1, cx, tagn))],
+                     mkl(spec[3], depth + 1, cx, tagn))]
+    if k == 'ifelif':
+        return [A.If([(_cond(spec[1]), mkl(spec[2], depth + 1, cx, tagn)),
+                      (_cond(spec[3]), mkl(spec[4], depth + 1, cx, tagn))],
+                     mkl(spec[5], depth + 1, cx, tagn))]
+    if k == 'ifl':
+        return [A.IfLine(_cond(spec[1]), mkl(spec[2], depth, cx, tagn))]
+    if k == 'iflelse':
+        return [A.IfLine(_cond(spec[1]), mkl(spec[2], depth, cx, tagn), mkl(spec[3], depth, cx, tagn))]
+    if k == 'for':
+        m = spec[1]
+        iv = 'i' + d + '%'
+        body = mkl(spec[2], depth + 1, cx, tagn)
+        if m == '1to3':
+            f = A.For(iv, L('1'), L('3'), None, [Pn(Vr(iv))] + body)
+        elif m == '3to1':
+            f = A.For(iv, L('3'), L('1'), None, [Pn(Vr(iv))] + body)
+        elif m == '3to1s-1':
+            f = A.For(iv, L('3'), L('1'), N('-1'), [Pn(Vr(iv))] + body, next_var=True)
+        elif m == 'f0to1s.5':
+            iv = 'f' + d + '!'
+            f = A.For(iv, L('0'), L('1'), L('0.5'), [Pn(Vr(iv))] + body)
+        elif m == '1to2.5':
+            f = A.For(iv, L('1'), L('2.5'), None, [Pn(Vr(iv))] + body)
+        elif m == 'xtox+1':
+            f = A.For(iv, Vr('x%'), A.Bin('+', Vr('x%'), L('1')), None, [Pn(Vr(iv))] + body)
+        else:
+            raise ValueError(m)
+        return [f, A.Print([Vr(iv)])]
+    if k == 'while':
+        w = 'w' + d + '%'
+        return [let(w, L('0')),
+                A.While(A.Bin('<', Vr(w), L('2')), [inc(w)] + mkl(spec[1], depth + 1, cx, tagn))]
+    if k == 'do':
+        w = 'w' + d + '%'
+        kind = spec[1]
+        body = [inc(w)] + mkl(spec[2], depth + 1, cx, tagn)
+        if kind == 'forever':
+            body = [inc(w), A.IfLine(A.Bin('>', Vr(w), L('2')), [A.Exit('DO')])] + body[1:]
+            c = None
+        elif kind == 'do_while':
+            c = A.Bin('<', Vr(w), L('2'))
+        elif kind == 'do_until':
+            c = A.Bin('>=', Vr(w), L('2'))
+        elif kind == 'loop_while':
+            c = A.Bin('-', L('2'), Vr(w))        # true values 2, 1 (not -1), false 0
+        else:
+            c = A.Bin('=', Vr(w), L('2'))
+        return [let(w, L('0')), A.Do(kind, c, body)]
+    if k == 'sel':
+        tagn[0] += 1
+        t = tagn[0]
+        cases = [([('val', L('0'))], mkl(spec[2], depth + 1, cx, tagn)),
+                 ([('range', L('1'), L('2'))], [A.Print([A.Str('r%d' % t)])]),
+                 ([('is', '>', L('2'))], [A.Print([A.Str('g%d' % t)])])]
+        if spec[1] == 'else':
+            return [A.Select(Vr('x%'), cases, [A.Print([A.Str('e%d' % t)])])]
+        return [A.Select(A.Bin('-', Vr('x%'), L('5')), cases)]
+    if k == 'gosub':
+        lb = cx.label()
+        sub = [A.Label(lb)] + mkl(spec[1], 0, cx, tagn) + [A.Return()]
+        cx.subs.extend(sub)
+        cx.flags.add('label')
+        return [A.Gosub(lb)]
+    if k == 'gosubn':
+        cx.n += 1
+        num = 100 + cx.n
+        sub = [A.Label(num)] + mkl(spec[1], 0, cx, tagn) + [A.Return()]
+        cx.subs.extend(sub)
+        cx.flags.add('label')
+        return [A.Gosub(num)]
+    if k == 'goto':
+        # forward jump over the body; only legal at depth 0 for the label,
+        # the GOTO itself may be nested (cx.pending is flushed at top level)
+        lb = cx.label()
+        cx.flags.add('label')
+        if depth == 0:
+            return [A.Goto(lb)] + mkl(spec[1], depth, cx, tagn) + [A.Label(lb)]
+        cx.pending = getattr(cx, 'pending', []) + [lb]
+        return [A.Goto(lb)]
+    raise ValueError(spec)
+
+
+def mkl(specs, depth, cx, tagn):
+    out = []
+    for s in specs:
+        out.extend(mk(s, depth, cx, tagn))
+    return out
+
+
+def _f5_blocks(bodies, in_for, in_do, tier):
+    """all block statements whose bodies come from `bodies` (list of spec lists)"""
+    out = []
+    q = tier == 'quick'
+    one = bodies[0]
+    conds = F5_CONDS
+    for b in bodies:
+        for c in conds:
+            out.append(('if', c, b))
+        out.append(('ifelse', 'x', b, [('p',)]))
+        out.append(('ifelse', 'x=0', [('p',)], b))
+        out.append(('ifelif', 'x', [('p',)], 'x=0', b, [('px',)]))
+        for m in F5_FORS:
+            out.append(('for', m, b))
+        out.append(('for', '1to3', b + [('exitfor',)]))
+        out.append(('while', b))
+        for kd in F5_DOS:
+            out.append(('do', kd, b))
+        out.append(('do', 'loop_until', b + [('exitdo',)]))
+        out.append(('sel', 'else', b))
+        out.append(('sel', 'none', b))
+        out.append(('gosub', b))
+        out.append(('goto', b))
+    # one-line IF: bodies of simple statements only
+    for c in (conds if not q else ['x', 'notx']):
+        out.append(('ifl', c, [('inc',), ('p',)]))
+        out.append(('iflelse', c, [('p',)], [('inc',)]))
+    out.append(('gosubn', one))
+    return out
+
+
+def _has(spec, kinds):
+    if isinstance(spec, tuple):
+        if spec and spec[0] in kinds:
+            return True
+        return any(_has(x, kinds) for x in spec[1:])
+    if isinstance(spec, list):
+        return any(_has(x, kinds) for x in spec)
+    return False
+
+
+def _f5_stmts(tier):
+    """(level-1 statements, level-2 statements) as spec lists"""
+    simple = list(F5_SIMPLE)
+    if tier == 'quick':
+        bodies0 = [[s] for s in simple]
+    else:
+        bodies0 = [[s] for s in simple] + [[a, b] for a in simple for b in simple]
+    lvl1 = simple + _f5_blocks(bodies0, False, False, tier)
+    # level 2: blocks whose single body statement is a level-1 *block*
+    inner = [s for s in lvl1 if s[0] not in ('p', 'inc', 'px')]
+    if tier == 'quick':
+        # bodies of one block statement; the inner block's own body is the
+        # first simple statement only (keeps quick small)
+        inner = [s for s in inner if not _has(list(s[1:]), ('inc', 'px')) or s[0] in ('ifl', 'iflelse')]
+    bodies1 = [[s] for s in inner if not _has(s, ('goto',))]
+    lvl2 = _f5_blocks(bodies1, False, False, tier)
+    lvl2 = [s for s in lvl2 if s[0] not in ('ifl', 'iflelse', 'gosubn')]
+    return lvl1, lvl2
+
+
+def _f5_programs(tier):
+    """list of (spec list, shape tag) in size order"""
+    lvl1, lvl2 = _f5_stmts(tier)
+    progs = []
+    for s in lvl1:
+        progs.append([s])
+    # pairs: second statement from the blocks whose body is the first simple
+    # statement only (plus the simple statements)
+    second = [s for s in lvl1 if not _has(list(s[1:]), ('inc', 'px')) or s[0] in ('ifl', 'iflelse')]
+    for a in lvl1:
+        for b in second:
+            if a[0] in ('p', 'px') and b[0] in ('p', 'px'):
+                continue
+            progs.append([a, b])
+    for s in lvl2:
+        progs.append([s])
+    if tier != 'quick':
+        blocks1 = [s for s in lvl1 if s[0] not in ('p', 'inc', 'px')]
+        small = [s for s in blocks1 if not _has(list(s[1:]), ('inc', 'px')) and s[0] not in ('ifl', 'iflelse')]
+        for s in lvl2:
+            progs.append([('inc',), s])
+        for a in small:
+            for b in small:
+                for c in (('inc',), ('end',)):
+                    progs.append([a, c, b])
+    return progs
+
+
+def _kinds(spec, out):
+    if isinstance(spec, tuple):
+        if spec and isinstance(spec[0], str) and spec[0] not in F5_CONDS + F5_FORS + F5_DOS:
+            out.append(spec[0] if spec[0] != 'do' else 'do-' + spec[1])
+        for x in spec[1:]:
+            _kinds(x, out)
+    elif isinstance(spec, list):
+        for x in spec:
+            _kinds(x, out)
+    return out
+
+
+F5_CHUNK = 48
+
+
+def f5_descs(tier):
+    n = len(_f5_programs(tier))
+    return [('F5', tier, i) for i in range(0, n, F5_CHUNK)]
+
+
+_F5_CACHE = {}
+
+
+def build_f5(d):
+    _, tier, start = d
+    progs = _F5_CACHE.get(tier)
+    if progs is None:
+        progs = _F5_CACHE[tier] = _f5_programs(tier)
+    items = []
+    for idx in range(start, min(start + F5_CHUNK, len(progs))):
+        specs = progs[idx]
+        items.append(_f5_item(specs, idx))
+    return Case('F5', items)
+
+
+def _f5_item(specs, idx):
+    cx = _Ctx()
+    tagn = [0]
+    body = [let('x%', L('0'))]
+    for s in specs:
+        body.extend(mk(s, 0, cx, tagn))
+        for lb in getattr(cx, 'pending', []):
+            body.append(A.Label(lb))
+        cx.pending = []
+    body.append(P(A.Str('x='), Vr('x%')))
+    kinds = _kinds(specs, [])
+    post = None
+    if cx.subs:
+        body.append(A.End())
+        body.extend(cx.subs)
+    feat = {'construct': 'control', 'key': 'F5#%d %s' % (idx, '/'.join(kinds)),
+            'uses': sorted(set(kinds) - {'p', 'inc', 'px'})}
+    it = Item(body, feat, size=len(repr(specs)), post=post)
+    if cx.flags:
+        it.script = {}          # not packable: labels / END are program-wide
+    return it
+
+
+# ---------------------------------------------------------------------------
+# F5c truth of a condition: every conditional construct x typed values
+# (true iff non-zero; the value is not rounded or narrowed first)
+
+F5C_FORMS = ['if', 'ifl', 'elseif', 'while', 'do_while', 'do_until', 'loop_while', 'loop_until']
+F5C_VALUES = {
+    INTEGER: ['0', '2', '-1', '32767'],
+    LONG: ['0', '2', '70000', '-70000'],
+    SINGLE: ['0', '0.4', '-0.4', '0.5', '0.6', '1.5', '70000.5', '1E-30'],
+    DOUBLE: ['0', '0.4', '-0.5', '2.5', '1D-300', '3000000000'],
+}
+
+
+def _cond_class(t, v):
+    x = float(v.replace('D', 'E'))
+    if x == 0:
+        return 'zero'
+    if t in (SINGLE, DOUBLE) and abs(x) <= 0.5:
+        return 'rounds-to-zero'
+    if t != INTEGER and abs(x) > 32767.5:
+        return 'beyond-integer'
+    return 'plain'
+
+
+def f5c_descs(tier):
+    return [('F5c', tier, form) for form in F5C_FORMS]
+
+
+def build_f5c(d):
+    _, tier, form = d
+    items = []
+    for t in NUM:
+        c = 'c' + SUF[t]
+        for v in F5C_VALUES[t]:
+            for shape in ('var', 'expr'):
+                cond = (lambda: Vr(c)) if shape == 'var' else (lambda: A.Bin('*', Vr(c), L('1')))
+                T = lambda: [A.Print([A.Str('T')])]
+                F = lambda: [A.Print([A.Str('F')])]
+                pre = [let(c, N(v)), let('n%', L('0'))]
+                guard = lambda: [inc('n%'), A.IfLine(A.Bin('>', Vr('n%'), L('2')), [A.Exit('DO')])]
+                if form == 'if':
+                    body = [A.If([(cond(), T())], F())]
+                elif form == 'ifl':
+                    body = [A.IfLine(cond(), T(), F())]
+                elif form == 'elseif':
+                    body = [A.If([(A.Bin('>', Vr('n%'), L('0')), [A.Print([A.Str('no')])]), (cond(), T())], F())]
+                elif form == 'while':
+                    body = [A.While(cond(), [inc('n%'), let(c, L('0'))])]
+                else:
+                    body = [A.Do(form, cond(), guard())]
+                body.append(P(A.Str('n='), Vr('n%')))
+                feat = {'construct': 'condition', 'form': form, 'lt': t, 'cond_class': _cond_class(t, v),
+                        'shape': shape, 'key': 'F5c %s %s %s %s' % (form, t, v, shape)}
+                items.append(Item(pre + body, feat, size=len(v)))
+    return Case('F5', items)
+
+
+# ---------------------------------------------------------------------------
+# F6 FOR at the type limits
+
+F6_MENU = {
+    INTEGER: [('32765', '32767', None), ('32766', '32767', '2'), ('-32767', '-32768', '-1'),
+              ('-32766', '-32768', '-2'), ('1', '2', '0.4'), ('1', '3', '1.5'), ('0', '2.5', None),
+              ('0.5', '3.5', None), ('5', '1', None), ('1', '1', None), ('32767', '32767', '-1'),
+              ('1', '40000', '20000'), ('-20000', '20000', '10000'), ('20000', '-20000', '-10000'),
+              ('-32768', '-32768', '-1'), ('-32768', '-32767', None)],
+    LONG: [('2147483645', '2147483647', None), ('-2147483647', '-2147483648', '-1'),
+           ('1', '3', '1.5'), ('0', '2.5', None), ('70000', '1', '-30000'), ('1', '1', '0.5'),
+           ('-2000000000', '2000000000', '1000000000'), ('-2147483648', '-2147483647', None)],
+    SINGLE: [('0', '1', '0.25'), ('1', '0', '-0.5'), ('0', '0.3', '0.1'), ('16777215', '16777217', None),
+             ('1', '2', '0.4'), ('3.402823E+38', '3.402823E+38', '1E+38'), ('2', '1', None)],
+    DOUBLE: [('0', '1', '0.25'), ('0', '0.3', '0.1'), ('1', '0', '-0.5'),
+             ('1.7976931348623157D+308', '1.7976931348623157D+308', '1D+308'), ('2', '1', None)],
+}
+
+
+def _for_hazard(t, a, b, s):
+    """input-side class: does a naive 'normalise by the sign of the step' loop
+    leave the counter's type although every value the loop needs fits?"""
+    if t not in V.LIMITS:
+        return 'none'
+    lo, hi = V.LIMITS[t]
+    r = V.round_half_even
+    try:
+        fa, fb = r(float(a)), r(float(b))
+        fs = 1 if s is None else r(float(s))
+    except Exception:
+        return 'none'
+    if not (lo <= fa <= hi and lo <= fb <= hi and lo <= fs <= hi):
+        return 'none'
+    if not lo <= fb - fa <= hi:
+        return 'span-beyond-type'
+    if fs < 0 and lo in (fa, fb):
+        return 'negated-limit'
+    return 'none'
+
+
+def f6_descs(tier):
+    return [('F6', tier, t) for t in NUM]
+
+
+def build_f6(d):
+    _, tier, t = d
+    v = 'c' + SUF[t]
+    items = []
+    for form in ('lit', 'var'):
+        for a, b, s in F6_MENU[t]:
+            pre = []
+            if form == 'lit':
+                ea, eb, es = N(a), N(b), (None if s is None else N(s))
+            else:
+                # bounds through DOUBLE variables: converted to the counter's type
+                pre = [let('a#', N(a)), let('b#', N(b))]
+                ea, eb = Vr('a#'), Vr('b#')
+                es = None
+                if s is not None:
+                    pre.append(let('s#', N(s)))
+                    es = Vr('s#')
+            body = [let('n%', L('0'))] + pre + [
+                A.For(v, ea, eb, es, [Pn(Vr(v)), inc('n%'),
+                                      A.IfLine(A.Bin('>', Vr('n%'), L('5')), [A.Exit('FOR')])]),
+                P(A.Str('end'), Vr(v), Vr('n%'))]
+            feat = {'construct': 'for-limits', 'lt': t, 'form': form, 'restype': t,
+                    'hazard': _for_hazard(t, a, b, s),
+                    'bounds': '%s TO %s STEP %s' % (a, b, s), 'key': 'F6 %s %s %s %s %s' % (t, form, a, b, s)}
+            items.append(Item(body, feat, size=len(a) + len(b)))
+    return Case('F6', items)
+
+
+# ---------------------------------------------------------------------------
+# F7 SELECT CASE
+
+F7_SEL = {
+    INTEGER: ['0', '2', '-7'],
+    LONG: ['2', '70000'],
+    SINGLE: ['2', '2.5', '0.1'],
+    DOUBLE: ['2', '2.5', '0.1'],
+    STRING: ['b', '', 'ab'],
+}
+F7_CLAUSES_NUM = [
+    ('val', '2'), ('val', '2.5'), ('val', '2.4'), ('val', '0.1'), ('val', '70000'), ('val', '0.1#'),
+    ('range', '1', '3'), ('range', '3', '1'), ('range', '2.5', '2.5'), ('range', '-10', '0'),
+    ('is', '<', '2'), ('is', '>=', '2.5'), ('is', '<>', '2'), ('is', '=', '70000'),
+    ('list', ('val', '1'), ('range', '2', '3')), ('list', ('is', '<', '0'), ('val', '2.5')),
+    ('list', ('val', '70000'), ('val', '2')),
+]
+F7_CLAUSES_STR = [
+    ('val', 'b'), ('val', ''), ('range', 'a', 'c'), ('range', '', 'a'), ('is', '<', 'b'),
+    ('is', '>=', 'ab'), ('list', ('val', 'x'), ('val', 'ab')), ('is', '<>', ''),
+]
+
+
+def _clause(cl, string):
+    mkv = (lambda t: A.Str(t)) if string else N
+    if cl[0] == 'val':
+        return [('val', mkv(cl[1]))]
+    if cl[0] == 'range':
+        return [('range', mkv(cl[1]), mkv(cl[2]))]
+    if cl[0] == 'is':
+        return [('is', cl[1], mkv(cl[2]))]
+    out = []
+    for c in cl[1:]:
+        out.extend(_clause(c, string))
+    return out
+
+
+def f7_descs(tier):
+    return [('F7', tier, t) for t in NUM + [STRING]]
+
+
+def build_f7(d):
+    _, tier, t = d
+    string = t == STRING
+    clauses = F7_CLAUSES_STR if string else F7_CLAUSES_NUM
+    items = []
+    sv = 's' + SUF[t]
+    for sel in F7_SEL[t]:
+        for i, c1 in enumerate(clauses):
+            seconds = clauses if tier != 'quick' else [clauses[(i + 1) % len(clauses)], clauses[(i + 5) % len(clauses)]]
+            for c2 in seconds:
+                for with_else in (True, False):
+                    if tier == 'quick' and not with_else and c2 is not seconds[0]:
+                        continue
+                    cases = [(_clause(c1, string), [A.Print([A.Str('one')])]),
+                             (_clause(c2, string), [A.Print([A.Str('two')])])]
+                    st = A.Select(Vr(sv), cases, [A.Print([A.Str('else')])] if with_else else None)
+                    body = [let(sv, A.Str(sel) if string else N(sel)), st, A.Print([A.Str('after')])]
+                    feat = {'construct': 'select', 'lt': t, 'c1': c1[0], 'c2': c2[0],
+                            'key': 'F7 %s %s %r %r %s' % (t, sel, c1, c2, with_else)}
+                    items.append(Item(body, feat, size=len(repr(c1)) + len(repr(c2))))
+    # selector is an expression / literal (folding) - one clause set
+    if not string:
+        for e in (A.Bin('+', Vr(sv), L('1')), A.Bin('/', Vr(sv), L('2')), L('2'), L('2.5')):
+            cases = [(_clause(('val', '3'), False), [A.Print([A.Str('one')])]),
+                     (_clause(('range', '1', '2.5'), False), [A.Print([A.Str('two')])])]
+            st = A.Select(e, cases, [A.Print([A.Str('else')])])
+            body = [let(sv, N('2')), st]
+            feat = {'construct': 'select', 'lt': t, 'c1': 'expr-selector', 'c2': 'range',
+                    'key': 'F7 %s expr %s' % (t, A.expr(e))}
+            items.append(Item(body, feat, size=20))
+    return Case('F7', items)
+
+
+# ---------------------------------------------------------------------------
+# F8 procedures
+
+ARG_FORMS = ['var', 'elem', 'field', 'lit', 'expr', 'paren', 'othertype']
+BODY_ACTIONS = ['write', 'read', 'exit', 'static', 'shared', 'shadow', 'recurse', 'nested-call']
+
+
+def f8_descs(tier):
+    out = []
+    types = [INTEGER, SINGLE, STRING] if tier == 'quick' else NUM + [STRING]
+    for kind in ('SUB', 'FUNCTION'):
+        for t in types:
+            for style in (('call', 'bare') if kind == 'SUB' else ('expr',)):
+                for decl in (False, True):
+                    out.append(('F8', tier, kind, t, style, decl))
+    for t in ([INTEGER, DOUBLE] if tier == 'quick' else NUM):
+        out.append(('F8r', tier, t))
+    out.append(('F8m', tier))
+    return out
+
+
+def _val_of(t, k=0):
+    if t == STRING:
+        return A.Str(['s0', 's1', 's2'][k])
+    return N(['5', '7', '9'][k] if t in (INTEGER, LONG) else ['2.5', '7.25', '9.5'][k])
+
+
+def _bump(t, e):
+    """expression 'e changed' of type t"""
+    if t == STRING:
+        return A.Bin('+', e, A.Str('!'))
+    return A.Bin('+', e, L('1'))
+
+
+def build_f8(d):
+    _, tier, kind, t, style, decl = d
+    s = SUF[t]
+    pname = 'p' + s
+    fname = 'fq' + s if kind == 'FUNCTION' else 'sb'
+    items = []
+    other = {INTEGER: LONG, LONG: INTEGER, SINGLE: DOUBLE, DOUBLE: SINGLE, STRING: STRING}[t]
+    for action in BODY_ACTIONS:
+        for form in ARG_FORMS:
+            if form == 'othertype' and t == STRING:
+                continue
+            pre = []
+            # argument
+            if form == 'var':
+                arg = Vr('v' + s)
+                setup = [let('v' + s, _val_of(t))]
+                show = [A.Print([Vr('v' + s)])]
+            elif form == 'elem':
+                pre = [A.Dim([A.Decl('ar' + s, [(None, L('3'))])])]
+                arg = A.Index('ar' + s, [L('2')])
+                setup = [A.Assign(A.Index('ar' + s, [L('2')]), _val_of(t))]
+                show = [P(A.Index('ar' + s, [L('1')]), A.Index('ar' + s, [L('2')]), A.Index('ar' + s, [L('3')]))]
+            elif form == 'field':
+                pre = [A.TypeDef('rt', [('fa', 'INTEGER'), ('fv', TNAME[t] if t != STRING else 'LONG'),
+                                        ('fz', 'INTEGER')]),
+                       A.Dim([A.Decl('rc', None, 'rt')])]
+                if t == STRING:
+                    continue
+                arg = A.Field(Vr('rc'), 'fv')
+                setup = [A.Assign(A.Field(Vr('rc'), 'fv'), _val_of(t))]
+                show = [P(A.Field(Vr('rc'), 'fa'), A.Field(Vr('rc'), 'fv'), A.Field(Vr('rc'), 'fz'))]
+            elif form == 'lit':
+                arg = _val_of(t, 1)
+                setup = []
+                show = []
+            elif form == 'expr':
+                arg = _bump(t, Vr('v' + s))
+                setup = [let('v' + s, _val_of(t))]
+                show = [A.Print([Vr('v' + s)])]
+            elif form == 'paren':
+                arg = A.Paren(Vr('v' + s))
+                setup = [let('v' + s, _val_of(t))]
+                show = [A.Print([Vr('v' + s)])]
+            else:   # expression of another numeric type: converted into a temporary
+                arg = A.Bin('+', Vr('o' + SUF[other]), L('0'))
+                setup = [let('o' + SUF[other], N('6'))]
+                show = [A.Print([Vr('o' + SUF[other])])]
+            # body
+            body = []
+            extra_pre = []
+            if action == 'write':
+                body = [A.Print([Vr(pname)]), let(pname, _bump(t, Vr(pname))), A.Print([Vr(pname)])]
+            elif action == 'read':
+                body = [A.Print([Vr(pname)])]
+            elif action == 'exit':
+                body = [let(pname, _bump(t, Vr(pname))), A.Exit(kind), let(pname, _val_of(t, 2))]
+            elif action == 'static':
+                body = [A.Static([A.Decl('cnt%')]), inc('cnt%'), P(A.Str('cnt'), Vr('cnt%')),
+                        let(pname, _bump(t, Vr(pname)))]
+            elif action == 'shared':
+                extra_pre = [A.Dim([A.Decl('g' + s)], shared=True)]
+                body = [let('g' + s, Vr(pname)), let(pname, _bump(t, Vr(pname))), A.Print([Vr('g' + s)])]
+            elif action == 'shadow':
+                # a local with the name of a module-level variable is a different variable
+                body = [A.Print([Vr('v' + s)]), let('v' + s, _val_of(t, 2)), let(pname, _bump(t, Vr(pname)))]
+            elif action == 'recurse':
+                body = [A.Static([A.Decl('dep%')]), inc('dep%'),
+                        P(A.Str('in'), Vr('dep%'), Vr(pname))]
+                rec_arg = Vr(pname)
+                if kind == 'SUB':
+                    body.append(A.IfLine(A.Bin('<', Vr('dep%'), L('3')),
+                                         [A.CallSub(fname, [rec_arg], 'call')]))
+                else:
+                    body.append(A.IfLine(A.Bin('<', Vr('dep%'), L('3')),
+                                         [let('tmp' + s, A.FnCall(fname, [rec_arg]))]))
+                body.append(let(pname, _bump(t, Vr(pname))))
+                body.append(P(A.Str('out'), Vr(pname)))
+            elif action == 'nested-call':
+                body = [A.CallSub('helper', [Vr(pname)], 'call'), A.Print([Vr(pname)])]
+            if kind == 'FUNCTION' and action != 'exit':
+                body.append(let(fname, Vr(pname)))
+            elif kind == 'FUNCTION':
+                body.insert(1, let(fname, Vr(pname)))
+            procs = [A.Proc(kind, fname, [A.Param(pname)], body)]
+            if action == 'nested-call':
+                procs.append(A.Proc('SUB', 'helper', [A.Param('q' + s)],
+                                    [let('q' + s, _bump(t, Vr('q' + s)))]))
+            decls = []
+            if decl:
+                decls = [A.Declare(kind, fname, [A.Param(pname)])]
+                if action == 'nested-call':
+                    decls.append(A.Declare('SUB', 'helper', [A.Param('q' + s)]))
+            if kind == 'SUB':
+                calls = [A.CallSub(fname, [arg], style)]
+                if action in ('static', 'recurse'):
+                    calls = calls + [A.CallSub(fname, [_copy_arg(form, s, other)], style)]
+            else:
+                calls = [A.Print([A.FnCall(fname, [arg])])]
+                if action in ('static', 'recurse'):
+                    calls = calls + [A.Print([A.FnCall(fname, [_copy_arg(form, s, other)])])]
+            stmts = setup + calls + show
+            feat = {'construct': 'procedure', 'kind': kind, 'lt': t, 'arg': form, 'action': action,
+                    'style': style, 'declare': decl,
+                    'key': 'F8 %s %s %s %s %s %s' % (kind, t, style, decl, action, form)}
+            items.append(Item(stmts, feat, size=len(form) + len(action),
+                              pre=decls + pre + extra_pre, post=[A.End()] + procs, script={}))
+    return Case('F8', items, packable=False)
+
+
+def _copy_arg(form, s, other):
+    """a second, fresh argument expression of the same form"""
+    t = V.SUFFIX[s]
+    if form == 'var':
+        return Vr('v' + s)
+    if form == 'elem':
+        return A.Index('ar' + s, [L('2')])
+    if form == 'field':
+        return A.Field(Vr('rc'), 'fv')
+    if form == 'lit':
+        return _val_of(t, 1)
+    if form == 'expr':
+        return _bump(t, Vr('v' + s))
+    if form == 'paren':
+        return A.Paren(Vr('v' + s))
+    return A.Bin('+', Vr('o' + SUF[other]), L('0'))
+
+
+def build_f8r(d):
+    """recursion with results: factorial / fibonacci / mutual recursion / by-ref accumulators"""
+    _, tier, t = d
+    s = SUF[t]
+    items = []
+    ns = ['0', '1', '5'] if tier == 'quick' else ['0', '1', '2', '5', '8']
+    for n in ns:
+        # factorial as FUNCTION (overflows for INTEGER at 8)
+        fact = A.Proc('FUNCTION', 'fact' + s, [A.Param('n' + s)], [
+            A.If([(A.Bin('<=', Vr('n' + s), L('1')), [let('fact' + s, L('1'))])],
+                 [let('fact' + s, A.Bin('*', Vr('n' + s), A.FnCall('fact' + s, [A.Bin('-', Vr('n' + s), L('1'))])))])])
+        items.append(Item([A.Print([A.FnCall('fact' + s, [N(n)])])],
+                          {'construct': 'recursion', 'shape': 'fact', 'lt': t, 'key': 'F8r fact %s %s' % (t, n)},
+                          size=int(n), post=[A.End(), fact], script={}))
+        # fibonacci (two recursive calls in one expression)
+        fib = A.Proc('FUNCTION', 'fib' + s, [A.Param('n' + s)], [
+            A.If([(A.Bin('<', Vr('n' + s), L('2')), [let('fib' + s, Vr('n' + s))])],
+                 [let('fib' + s, A.Bin('+', A.FnCall('fib' + s, [A.Bin('-', Vr('n' + s), L('1'))]),
+                                       A.FnCall('fib' + s, [A.Bin('-', Vr('n' + s), L('2'))])))])])
+        items.append(Item([A.Print([A.FnCall('fib' + s, [N(n)])])],
+                          {'construct': 'recursion', 'shape': 'fib', 'lt': t, 'key': 'F8r fib %s %s' % (t, n)},
+                          size=int(n), post=[A.End(), fib], script={}))
+        # by-reference accumulator through the recursion, locals fresh per activation
+        acc = A.Proc('SUB', 'walk', [A.Param('n%'), A.Param('acc' + s)], [
+            let('lc' + s, Vr('n%')),
+            A.If([(A.Bin('>', Vr('n%'), L('0')),
+                   [A.CallSub('walk', [A.Bin('-', Vr('n%'), L('1')), Vr('acc' + s)], 'call')])]),
+            let('acc' + s, A.Bin('+', Vr('acc' + s), Vr('lc' + s))),
+            Pn(Vr('lc' + s))])
+        items.append(Item([let('tot' + s, L('100')), A.CallSub('walk', [N(n), Vr('tot' + s)], 'bare'),
+                           A.Print([Vr('tot' + s)])],
+                          {'construct': 'recursion', 'shape': 'byref-acc', 'lt': t,
+                           'key': 'F8r walk %s %s' % (t, n)},
+                          size=int(n), post=[A.End(), acc], script={}))
+        # mutual recursion
+        ev = A.Proc('FUNCTION', 'isev%', [A.Param('n' + s)], [
+            A.If([(A.Bin('=', Vr('n' + s), L('0')), [let('isev%', N('-1'))])],
+                 [let('isev%', A.FnCall('isod%', [A.Bin('-', Vr('n' + s), L('1'))]))])])
+        od = A.Proc('FUNCTION', 'isod%', [A.Param('n' + s)], [
+            A.If([(A.Bin('=', Vr('n' + s), L('0')), [let('isod%', L('0'))])],
+                 [let('isod%', A.FnCall('isev%', [A.Bin('-', Vr('n' + s), L('1'))]))])])
+        items.append(Item([P(A.FnCall('isev%', [N(n)]), A.FnCall('isod%', [N(n)]))],
+                          {'construct': 'recursion', 'shape': 'mutual', 'lt': t, 'key': 'F8r mutual %s %s' % (t, n)},
+                          size=int(n),
+                          pre=[A.Declare('FUNCTION', 'isev%', [A.Param('n' + s)]),
+                               A.Declare('FUNCTION', 'isod%', [A.Param('n' + s)])],
+                          post=[A.End(), ev, od], script={}))
+    return Case('F8', items, packable=False)
+
+
+def build_f8m(d):
+    """two parameters; array of records element by reference inside a recursive SUB;
+    whole arrays and records as parameters"""
+    _, tier = d
+    items = []
+    rt = A.TypeDef('pt', [('px', 'INTEGER'), ('py', 'LONG')])
+
+    def add(key, pre, stmts, procs, shape):
+        items.append(Item(stmts, {'construct': 'procedure-multi', 'shape': shape, 'key': 'F8m ' + key},
+                          size=len(key), pre=pre, post=[A.End()] + procs, script={}))
+    # swap with two by-ref params, every pair of argument forms
+    swap = lambda: A.Proc('SUB', 'swp', [A.Param('a%'), A.Param('b%')],
+                          [let('t%', Vr('a%')), let('a%', Vr('b%')), let('b%', Vr('t%'))])
+    forms = {
+        'var': (lambda: Vr('u%'), lambda: Vr('w%')),
+        'elem': (lambda: A.Index('ar%', [L('1')]), lambda: A.Index('ar%', [L('2')])),
+        'field': (lambda: A.Field(Vr('r1'), 'px'), lambda: A.Field(Vr('r2'), 'px')),
+        'recelem': (lambda: A.Field(A.Index('rs', [L('1')]), 'px'), lambda: A.Field(A.Index('rs', [L('2')]), 'px')),
+        'paren': (lambda: A.Paren(Vr('u%')), lambda: A.Paren(Vr('w%'))),
+    }
+    pre_all = [rt, A.Dim([A.Decl('ar%', [(None, L('3'))])]), A.Dim([A.Decl('r1', None, 'pt')]),
+               A.Dim([A.Decl('r2', None, 'pt')]), A.Dim([A.Decl('rs', [(L('1'), L('2'))], 'pt')])]
+
+    def setup():
+        return [let('u%', L('1')), let('w%', L('2')),
+                A.Assign(A.Index('ar%', [L('1')]), L('11')), A.Assign(A.Index('ar%', [L('2')]), L('12')),
+                A.Assign(A.Field(Vr('r1'), 'px'), L('21')), A.Assign(A.Field(Vr('r2'), 'px'), L('22')),
+                A.Assign(A.Field(A.Index('rs', [L('1')]), 'px'), L('31')),
+                A.Assign(A.Field(A.Index('rs', [L('2')]), 'px'), L('32'))]
+
+    def show():
+        return [P(Vr('u%'), Vr('w%'), A.Index('ar%', [L('1')]), A.Index('ar%', [L('2')]),
+                  A.Field(Vr('r1'), 'px'), A.Field(Vr('r2'), 'px'),
+                  A.Field(A.Index('rs', [L('1')]), 'px'), A.Field(A.Index('rs', [L('2')]), 'px'))]
+    for f1, f2 in itertools.product(forms, repeat=2):
+        for style in ('call', 'bare'):
+            if tier == 'quick' and style == 'bare' and f1 != f2:
+                continue
+            add('swap %s %s %s' % (f1, f2, style), [x for x in _fresh_pre(pre_all)],
+                setup() + [A.CallSub('swp', [forms[f1][0](), forms[f2][1]()], style)] + show(),
+                [swap()], 'swap')
+    # same variable passed twice (aliasing)
+    add('alias', [], [let('u%', L('1')), A.CallSub('swp2', [Vr('u%'), Vr('u%')], 'call'), A.Print([Vr('u%')])],
+        [A.Proc('SUB', 'swp2', [A.Param('a%'), A.Param('b%')],
+                [let('a%', A.Bin('+', Vr('a%'), L('1'))), let('b%', A.Bin('*', Vr('b%'), L('10')))])], 'alias')
+    # record parameter and element of an array of records, recursive
+    recp = A.Proc('SUB', 'bump', [A.Param('p', 'pt'), A.Param('n%')], [
+        A.Assign(A.Field(Vr('p'), 'px'), A.Bin('+', A.Field(Vr('p'), 'px'), Vr('n%'))),
+        A.Assign(A.Field(Vr('p'), 'py'), A.Bin('+', A.Field(Vr('p'), 'py'), L('100000'))),
+        A.IfLine(A.Bin('>', Vr('n%'), L('1')), [A.CallSub('bump', [Vr('p'), A.Bin('-', Vr('n%'), L('1'))], 'call')])])
+    for target in ('rec', 'recelem'):
+        tgt = (lambda: Vr('r1')) if target == 'rec' else (lambda: A.Index('rs', [L('2')]))
+        add('recparam ' + target, _fresh_pre(pre_all),
+            [let('k%', L('7')), A.CallSub('bump', [tgt(), L('3')], 'call'),
+             P(A.Field(tgt(), 'px'), A.Field(tgt(), 'py'), Vr('k%'), A.Field(Vr('r2'), 'px'),
+               A.Field(A.Index('rs', [L('1')]), 'px'))],
+            [recp] if target == 'rec' else [A.Proc('SUB', 'bump', [A.Param('p', 'pt'), A.Param('n%')], [
+                A.Assign(A.Field(Vr('p'), 'px'), A.Bin('+', A.Field(Vr('p'), 'px'), Vr('n%'))),
+                A.Assign(A.Field(Vr('p'), 'py'), A.Bin('+', A.Field(Vr('p'), 'py'), L('100000'))),
+                A.IfLine(A.Bin('>', Vr('n%'), L('1')),
+                         [A.CallSub('bump', [Vr('p'), A.Bin('-', Vr('n%'), L('1'))], 'call')])])],
+            'record-param')
+    # whole array parameter
+    for lo, hi in (('0', '3'), ('2', '4')):
+        add('arrparam %s %s' % (lo, hi), [A.Dim([A.Decl('da&', [(L(lo), L(hi))])])],
+            [A.Assign(A.Index('da&', [L('2')]), L('5')), A.Assign(A.Index('da&', [L('3')]), L('70000')),
+             A.CallSub('total', [A.ArrayArg('da&')], 'call'),
+             A.Print([A.Index('da&', [L(hi)])])],
+            [A.Proc('SUB', 'total', [A.Param('q&', None, True)], [
+                let('s&', L('0')),
+                A.For('i%', A.Builtin('LBOUND', [Vr('q&')]), A.Builtin('UBOUND', [Vr('q&')]), None,
+                      [let('s&', A.Bin('+', Vr('s&'), A.Index('q&', [Vr('i%')])))]),
+                A.Print([Vr('s&')]),
+                A.Assign(A.Index('q&', [A.Builtin('UBOUND', [Vr('q&')])]), Vr('s&'))])],
+            'array-param')
+    # function with two params of different types, argument conversion per position
+    for a1, a2 in itertools.product(['2', '2.5', '3.5', '40000'], ['1', '0.5', '1D+39']):
+        add('mix %s %s' % (a1, a2), [],
+            [A.Print([A.FnCall('mix#', [N(a1), N(a2)])])],
+            [A.Proc('FUNCTION', 'mix#', [A.Param('a%'), A.Param('b!')],
+                    [let('mix#', A.Bin('+', A.Bin('*', Vr('a%'), L('10')), Vr('b!')))])], 'convert-args')
+    return Case('F8', items, packable=False)
+
+
+def _fresh_pre(pre_all):
+    """declarations are rebuilt per item (nodes are not shared)"""
+    out = []
+    for s in pre_all:
+        if isinstance(s, A.TypeDef):
+            out.append(A.TypeDef(s.name, list(s.fields)))
+        else:
+            out.append(A.Dim([A.Decl(dd.name, None if dd.dims is None else
+                                     [(None if lo is None else L(lo.text), L(hi.text)) for lo, hi in dd.dims],
+                                     dd.astype) for dd in s.decls], s.shared))
+    return out
+
+
+# ---------------------------------------------------------------------------
+# F9 scoping, CONST, DEFtype
+
+def f9_descs(tier):
+    out = [('F9c', tier), ('F9s', tier)]
+    for kind in ('INT', 'LNG', 'SNG', 'DBL', 'STR'):
+        out.append(('F9d', tier, kind))
+    return out
+
+
+def build_f9c(d):
+    """CONST: types from the expression / the suffix, global vs local, shadowing"""
+    _, tier = d
+    items = []
+
+    def add(key, stmts, procs=(), pre=(), cshape='other'):
+        items.append(Item(stmts, {'construct': 'const', 'cshape': cshape, 'key': 'F9c ' + key}, size=len(key),
+                          pre=list(pre), post=([A.End()] + list(procs)) if procs else None, script={}))
+    for name, e in [('ca', '5'), ('cb', '70000'), ('cc', '2.5'), ('cd', '2.5#'), ('ce%', '2.5'),
+                    ('cf%', '3.5'), ('cg&', '7'), ('ch!', '1'), ('ci#', '0.1'), ('cj', '0.1'),
+                    ('ck%', '32767')]:
+        add('type %s=%s' % (name, e), [A.Const(name, N(e)), A.Print([Vr(name)]),
+                                       A.Print([A.Bin('*', Vr(name), L('2'))]),
+                                       A.Print([A.Bin('/', Vr(name), L('2'))])],
+            cshape=('nosuffix' if name[-1] not in V.SUFFIX else
+                    'suffix-same' if V.SUFFIX[name[-1]] == V.literal(e).type else 'suffix-differs'))
+    add('str', [A.Const('cs$', A.Str('ab')), A.Print([A.Bin('+', Vr('cs$'), A.Str('c'))])])
+    add('expr', [A.Const('ca', L('5')), A.Const('cb', A.Bin('+', A.Bin('*', Vr('ca'), L('2')), L('1'))),
+                 A.Print([Vr('cb')]), A.Const('cn', A.Un('-', Vr('ca'))), A.Print([Vr('cn')])],
+        cshape='refers-const')
+    add('neg', [A.Const('cm', N('-32768')), A.Print([Vr('cm')]), A.Const('cq', A.Bin('\\', L('7'), L('2'))),
+                A.Print([Vr('cq')])])
+    # global visible in procedures; local shadows; local invisible outside
+    add('global-in-sub', [A.Const('ca', L('5')), A.CallSub('show', [], 'call')],
+        [A.Proc('SUB', 'show', [], [A.Print([A.Bin('+', Vr('ca'), L('1'))])])])
+    add('local-shadows', [A.Const('ca', L('5')), A.CallSub('show', [], 'call'), A.Print([Vr('ca')])],
+        [A.Proc('SUB', 'show', [], [A.Const('ca', L('6.5')), A.Print([Vr('ca')])])])
+    add('local-only', [A.CallSub('show', [], 'call'), A.CallSub('other', [], 'call')],
+        [A.Proc('SUB', 'show', [], [A.Const('cl', L('9')), A.Print([Vr('cl')])]),
+         A.Proc('SUB', 'other', [], [A.Const('cl', A.Str('x')), A.Print([Vr('cl')])])])
+    add('in-function', [A.Const('ca', L('5')), A.Print([A.FnCall('twice%', [Vr('ca')])])],
+        [A.Proc('FUNCTION', 'twice%', [A.Param('n%')], [let('twice%', A.Bin('*', Vr('n%'), Vr('ca')))])])
+    add('dim-bound', [A.Const('cn', L('3')), A.Dim([A.Decl('ar%', [(None, Vr('cn'))])]),
+                      A.Assign(A.Index('ar%', [Vr('cn')]), L('4')),
+                      P(A.Index('ar%', [L('3')]), A.Builtin('UBOUND', [Vr('ar%')]))])
+    add('for-select', [A.Const('cn', L('2')),
+                       A.For('i%', L('1'), Vr('cn'), None, [
+                           A.Select(Vr('i%'), [([('val', Vr('cn'))], [A.Print([A.Str('hit')])])],
+                                    [A.Print([A.Str('miss')])])])])
+    return Case('F9', items, packable=False)
+
+
+def build_f9s(d):
+    """visibility: module variables in procedures, DIM SHARED, STATIC, same name / other suffix"""
+    _, tier = d
+    items = []
+
+    def add(key, stmts, procs=(), pre=()):
+        items.append(Item(stmts, {'construct': 'scope', 'key': 'F9s ' + key}, size=len(key),
+                          pre=list(pre), post=([A.End()] + list(procs)) if procs else None, script={}))
+    for s in ['%', '&', '!', '#', '$']:
+        t = V.SUFFIX[s]
+        v0, v1 = _val_of(t, 0), _val_of(t, 1)
+        add('invisible ' + s, [let('v' + s, v0), A.CallSub('peek2', [], 'call'), A.Print([Vr('v' + s)])],
+            [A.Proc('SUB', 'peek2', [], [A.Print([Vr('v' + s)]), let('v' + s, _val_of(t, 1)),
+                                         A.Print([Vr('v' + s)])])])
+        add('shared ' + s, [let('g' + s, v0), A.CallSub('peek2', [], 'call'), A.Print([Vr('g' + s)])],
+            [A.Proc('SUB', 'peek2', [], [A.Print([Vr('g' + s)]), let('g' + s, _val_of(t, 1))])],
+            pre=[A.Dim([A.Decl('g' + s)], shared=True)])
+        add('shared-as ' + s, [let('g', v0), A.CallSub('peek2', [], 'call'), A.Print([Vr('g')])],
+            [A.Proc('SUB', 'peek2', [], [A.Print([Vr('g')]), let('g', _val_of(t, 1))])],
+            pre=[A.Dim([A.Decl('g', None, TNAME[t])], shared=True)])
+        add('static ' + s, [A.CallSub('cnt', [], 'call'), A.CallSub('cnt', [], 'call'), A.CallSub('cnt', [], 'bare')],
+            [A.Proc('SUB', 'cnt', [], [A.Static([A.Decl('k' + s)]), let('k' + s, _bump(t, Vr('k' + s))),
+                                       let('m' + s, _bump(t, Vr('m' + s))),
+                                       A.Print([Vr('k' + s), ';', Vr('m' + s)])])])
+        add('static-proc ' + s, [A.CallSub('cnt', [], 'call'), A.CallSub('cnt', [], 'call')],
+            [A.Proc('SUB', 'cnt', [], [let('m' + s, _bump(t, Vr('m' + s))), A.Print([Vr('m' + s)])],
+                    static=True)])
+        add('dim-local ' + s, [A.CallSub('cnt', [], 'call'), A.CallSub('cnt', [], 'call')],
+            [A.Proc('SUB', 'cnt', [], [A.Dim([A.Decl('m', None, TNAME[t])]), let('m', _bump(t, Vr('m'))),
+                                       A.Print([Vr('m')])])])
+    # the same base name with different suffixes names different variables
+    add('suffixes', [let('n%', L('1')), let('n&', L('2')), let('n!', L('3.5')), let('n#', L('4.5')),
+                     let('n$', A.Str('five')), P(Vr('n%'), Vr('n&'), Vr('n!'), Vr('n#'), Vr('n$'))])
+    add('static-shared-same-name',
+        [let('g%', L('1')), A.CallSub('one', [], 'call'), A.CallSub('two', [], 'call'), A.Print([Vr('g%')])],
+        [A.Proc('SUB', 'one', [], [A.Static([A.Decl('z%')]), let('z%', L('5')), let('g%', A.Bin('+', Vr('g%'), Vr('z%')))]),
+         A.Proc('SUB', 'two', [], [A.Print([Vr('z%')]), let('g%', A.Bin('*', Vr('g%'), L('2')))])],
+        pre=[A.Dim([A.Decl('g%')], shared=True)])
+    add('shared-array',
+        [A.Assign(A.Index('ga%', [L('2')]), L('7')), A.CallSub('one', [], 'call'), A.Print([A.Index('ga%', [L('3')])])],
+        [A.Proc('SUB', 'one', [], [A.Assign(A.Index('ga%', [L('3')]), A.Bin('+', A.Index('ga%', [L('2')]), L('1')))])],
+        pre=[A.Dim([A.Decl('ga%', [(None, L('3'))])], shared=True)])
+    add('function-local-named-like-param',
+        [let('a%', L('3')), A.Print([A.FnCall('f1%', [Vr('a%')])]), A.Print([Vr('a%')])],
+        [A.Proc('FUNCTION', 'f1%', [A.Param('b%')], [let('a%', L('10')), let('b%', A.Bin('+', Vr('b%'), Vr('a%'))),
+                                                     let('f1%', Vr('b%'))])])
+    return Case('F9', items, packable=False)
+
+
+def build_f9d(d):
+    """DEFtype: ranges x first letters x suffix override x AS override; in procedures too"""
+    _, tier, kind = d
+    t = {'INT': INTEGER, 'LNG': LONG, 'SNG': SINGLE, 'DBL': DOUBLE, 'STR': STRING}[kind]
+    items = []
+    string = t == STRING
+    val = A.Str('zz') if string else N('2.5')
+
+    def probe(name):
+        """statements showing the type of `name` through conversion of 2.5 / 7 \\ 2"""
+        if string:
+            return [let(name, A.Str('zz')), A.Print([A.Bin('+', Vr(name), A.Str('!'))])]
+        return [let(name, N('2.5')), A.Print([Vr(name)]), A.Print([A.Bin('/', Vr(name), L('2'))])]
+    ranges = [[('a', 'c')], [('b', None)], [('a', 'a'), ('x', 'z')], [('a', 'z')], [('C', 'A')] if False else [('A', 'C')]]
+    for rg in ranges:
+        for name in ['a', 'b', 'cnt', 'd', 'y', 'Bx']:
+            stmts = probe(name)
+            feat = {'construct': 'deftype', 'kind': kind, 'ranges': repr(rg), 'name': name,
+                    'key': 'F9d %s %r %s' % (kind, rg, name)}
+            items.append(Item(stmts, feat, size=len(name), pre=[A.DefType(kind, rg)], script={}))
+    # suffix and AS win over DEFtype; other letters stay SINGLE
+    rg = [('a', 'c')]
+    for name, extra_pre in [('a%', []), ('b#', []), ('c!', []), ('a&', []),
+                            ('b', [A.Dim([A.Decl('b', None, 'LONG')])]),
+                            ('c', [A.Dim([A.Decl('c')])]),
+                            ('a', [A.Dim([A.Decl('a', [(None, L('2'))])])])]:
+        if name == 'a':
+            if string:
+                stmts = [A.Assign(A.Index('a', [L('1')]), A.Str('q')), A.Print([A.Index('a', [L('1')])])]
+            else:
+                stmts = [A.Assign(A.Index('a', [L('1')]), N('2.5')), A.Print([A.Index('a', [L('1')])])]
+        elif name[-1] in '%&!#' or extra_pre and extra_pre[0].decls[0].astype:
+            stmts = [let(name, N('2.5')), A.Print([Vr(name)])]
+        else:
+            stmts = probe(name)
+        feat = {'construct': 'deftype', 'kind': kind, 'ranges': repr(rg), 'name': name + '+decl' * bool(extra_pre),
+                'key': 'F9d %s override %s %d' % (kind, name, len(extra_pre))}
+        items.append(Item(stmts, feat, size=9, pre=[A.DefType(kind, rg)] + extra_pre, script={}))
+    # inside procedures: parameters, locals and the function result follow DEFtype
+    body = probe('b') if not string else probe('b')
+    items.append(Item([A.CallSub('sp', [], 'call')],
+                      {'construct': 'deftype', 'kind': kind, 'ranges': repr(rg), 'name': 'local',
+                       'key': 'F9d %s local' % kind}, size=10,
+                      pre=[A.DefType(kind, rg)], post=[A.End(), A.Proc('SUB', 'sp', [], body)], script={}))
+    fb = [let('bfn', A.Str('r') if string else N('3.5'))]
+    items.append(Item([A.Print([A.FnCall('bfn', [])]) if False else A.Print([Vr('bfn')])],
+                      {'construct': 'deftype', 'kind': kind, 'ranges': repr(rg), 'name': 'fnresult',
+                       'key': 'F9d %s fnresult' % kind}, size=10,
+                      pre=[A.DefType(kind, rg)], post=[A.End(), A.Proc('FUNCTION', 'bfn', [], fb)], script={}))
+    pb = [A.Print([Vr('cp')])]
+    arg = A.Str('w') if string else N('2.5')
+    items.append(Item([A.CallSub('sq', [arg], 'call')],
+                      {'construct': 'deftype', 'kind': kind, 'ranges': repr(rg), 'name': 'param',
+                       'key': 'F9d %s param' % kind}, size=10,
+                      pre=[A.DefType(kind, rg)], post=[A.End(), A.Proc('SUB', 'sq', [A.Param('cp')], pb)], script={}))
+    return Case('F9', items, packable=False)
+
+
+# ---------------------------------------------------------------------------
+# F10 arrays and records
+
+def f10_descs(tier):
+    out = []
+    for t in ([INTEGER, DOUBLE, STRING] if tier == 'quick' else NUM + [STRING]):
+        out.append(('F10a', tier, t))
+    out.append(('F10r', tier))
+    return out
+
+
+F10_DIMS = [
+    ('implicit', None), ('0..3', [(None, '3')]), ('2..4', [('2', '4')]), ('-2..1', [('-2', '1')]),
+    ('3..3', [('3', '3')]), ('2d', [(None, '2'), ('1', '2')]), ('frac', [(None, '2.5')]),
+]
+F10_SUBS = ['0', '1', '3', '4', '-1', '-2', '10', '11', '2.5', '3.5', '1.5', '40000', '2&', '2#']
+
+
+def build_f10a(d):
+    _, tier, t = d
+    s = SUF[t]
+    items = []
+    nm = 'ar' + s
+    for dtag, dims in F10_DIMS:
+        pre = []
+        if dims is not None:
+            pre = [A.Dim([A.Decl(nm, [(None if lo is None else N(lo), N(hi)) for lo, hi in dims])])]
+        two = dims is not None and len(dims) == 2
+        for sub in F10_SUBS:
+            for form in ('const', 'var'):
+                if form == 'var':
+                    setup = [let('k#', N(sub.rstrip('&#')))]
+                    sx = Vr('k#')
+                else:
+                    setup = []
+                    sx = N(sub)
+                idx = (lambda: [sx, L('1')]) if two else (lambda: [sx])
+                stmts = setup + [let('g1' + s, _val_of(t, 2)),
+                                 A.Assign(A.Index(nm, idx()), _val_of(t, 0)),
+                                 A.Print([A.Index(nm, idx())]), A.Print([Vr('g1' + s)])]
+                feat = {'construct': 'array', 'lt': t, 'dims': dtag, 'sub': sub, 'form': form,
+                        'key': 'F10a %s %s %s %s' % (t, dtag, sub, form)}
+                items.append(Item(stmts, feat, size=len(sub), pre=_fresh_dims(pre), script={}))
+        # bounds and neighbours: write all, read all
+        if dims is not None and dtag != 'frac':
+            lo = int(dims[0][0] or 0)
+            hi = int(float(dims[0][1]))
+            body = []
+            for i in range(lo, hi + 1):
+                body.append(A.Assign(A.Index(nm, [N(i)] + ([L('2')] if two else [])),
+                                     A.Str('e%d' % i) if t == STRING else N(i * 3)))
+            body.append(P(*[A.Index(nm, [N(i)] + ([L('2')] if two else [])) for i in range(lo, hi + 1)]))
+            body.append(P(A.Builtin('LBOUND', [Vr(nm)]), A.Builtin('UBOUND', [Vr(nm)])))
+            if two:
+                body.append(P(A.Builtin('LBOUND', [Vr(nm), L('2')]), A.Builtin('UBOUND', [Vr(nm), L('2')])))
+                body.append(A.Print([A.Index(nm, [L('0'), L('1')])]))
+            feat = {'construct': 'array', 'lt': t, 'dims': dtag, 'sub': 'all', 'form': 'const',
+                    'key': 'F10a %s %s all' % (t, dtag)}
+            items.append(Item(body, feat, size=20, pre=_fresh_dims(pre), script={}))
+    # dynamic bounds
+    for lo, hi in [('1', '3'), ('0', '0'), ('3', '1'), ('-1', '1')]:
+        stmts = [let('lo%', N(lo)), let('hi%', N(hi)),
+                 A.Dim([A.Decl(nm, [(Vr('lo%'), Vr('hi%'))])]),
+                 A.Assign(A.Index(nm, [Vr('hi%')]), _val_of(t, 0)),
+                 P(A.Index(nm, [Vr('hi%')]), A.Builtin('LBOUND', [Vr(nm)]), A.Builtin('UBOUND', [Vr(nm)])),
+                 A.Print([A.Index(nm, [A.Bin('+', Vr('hi%'), L('1'))])])]
+        feat = {'construct': 'array', 'lt': t, 'dims': 'dynamic', 'sub': lo + '..' + hi, 'form': 'var',
+                'key': 'F10a %s dyn %s %s' % (t, lo, hi)}
+        items.append(Item(stmts, feat, size=10, script={}))
+    # LBOUND / UBOUND with a bad dimension
+    for dim in ['0', '2', '3']:
+        stmts = [A.Print([A.Builtin('UBOUND', [Vr(nm), N(dim)])])]
+        feat = {'construct': 'array', 'lt': t, 'dims': '2d', 'sub': 'ubound-dim=' + dim, 'form': 'const',
+                'key': 'F10a %s ubound %s' % (t, dim)}
+        items.append(Item(stmts, feat, size=10,
+                          pre=[A.Dim([A.Decl(nm, [(None, L('2')), (L('1'), L('2'))])])], script={}))
+    return Case('F10', items, packable=False)
+
+
+def _fresh_dims(pre):
+    out = []
+    for s in pre:
+        out.append(A.Dim([A.Decl(dd.name, [(None if lo is None else _clone(lo), _clone(hi)) for lo, hi in dd.dims],
+                                 dd.astype) for dd in s.decls], s.shared))
+    return out
+
+
+def _clone(e):
+    if isinstance(e, A.Lit):
+        return A.Lit(e.text)
+    if isinstance(e, A.Un):
+        return A.Un(e.op, _clone(e.e))
+    if isinstance(e, A.Var):
+        return A.Var(e.name)
+    raise TypeError(e)
+
+
+def build_f10r(d):
+    """records: every field type, nested records, arrays of records, neighbours untouched,
+    conversion on field assignment, defaults"""
+    _, tier = d
+    items = []
+
+    def td():
+        return [A.TypeDef('inner', [('ia', 'INTEGER'), ('ib', 'DOUBLE')]),
+                A.TypeDef('outer', [('fa', 'INTEGER'), ('fl', 'LONG'), ('fs', 'SINGLE'), ('fd', 'DOUBLE'),
+                                    ('fi', 'inner'), ('fz', 'INTEGER')])]
+
+    def add(key, pre, stmts, post=None):
+        items.append(Item(stmts, {'construct': 'record', 'key': 'F10r ' + key}, size=len(key),
+                          pre=td() + pre, post=post, script={}))
+    fields = [('fa', '7'), ('fl', '70000'), ('fs', '2.5'), ('fd', '0.1#'), ('fz', '-3')]
+    R = lambda: Vr('r')
+    for base_tag, base, pre in [
+            ('scalar', lambda: Vr('r'), lambda: [A.Dim([A.Decl('r', None, 'outer')])]),
+            ('elem', lambda: A.Index('rs', [L('2')]), lambda: [A.Dim([A.Decl('rs', [(L('1'), L('3'))], 'outer')])]),
+            ('elem-var', lambda: A.Index('rs', [Vr('k%')]), lambda: [A.Dim([A.Decl('rs', [(L('1'), L('3'))], 'outer')])])]:
+        for f, v in fields:
+            stmts = [let('k%', L('2')), let('before%', L('11')), A.Assign(A.Field(base(), f), N(v)), let('after%', L('12')),
+                     P(*[A.Field(base(), g) for g, _ in fields]),
+                     P(A.Field(A.Field(base(), 'fi'), 'ia'), A.Field(A.Field(base(), 'fi'), 'ib')),
+                     P(Vr('before%'), Vr('after%'))]
+            if base_tag != 'scalar':
+                stmts.append(P(A.Field(A.Index('rs', [L('1')]), f), A.Field(A.Index('rs', [L('3')]), f)))
+            add('%s %s' % (base_tag, f), pre(), stmts)
+        # nested
+        stmts = [let('k%', L('2')), A.Assign(A.Field(A.Field(base(), 'fi'), 'ia'), N('5')),
+                 A.Assign(A.Field(A.Field(base(), 'fi'), 'ib'), N('2.5')),
+                 P(A.Field(base(), 'fd'), A.Field(A.Field(base(), 'fi'), 'ia'), A.Field(A.Field(base(), 'fi'), 'ib'),
+                   A.Field(base(), 'fz'))]
+        add('%s nested' % base_tag, pre(), stmts)
+        # conversion into fields
+        for f, v in [('fa', '2.5'), ('fa', '3.5'), ('fa', '40000'), ('fl', '2147483647.5#'), ('fs', '0.1#'),
+                     ('fs', '1D+39'), ('fd', '0.1')]:
+            add('%s conv %s=%s' % (base_tag, f, v), pre(),
+                [let('k%', L('2')), A.Assign(A.Field(base(), f), N(v)), A.Print([A.Field(base(), f)])])
+        # subscript errors on arrays of records
+    for sub in ['0', '4', '1.5', '2.5']:
+        add('elem sub=' + sub, [A.Dim([A.Decl('rs', [(L('1'), L('3'))], 'outer')])],
+            [A.Assign(A.Field(A.Index('rs', [N(sub)]), 'fl'), L('9')),
+             P(A.Field(A.Index('rs', [L('1')]), 'fl'), A.Field(A.Index('rs', [L('2')]), 'fl'),
+               A.Field(A.Index('rs', [L('3')]), 'fl'))])
+    # record in a SUB: local record is fresh per call; SHARED record
+    add('local-record', [], [A.CallSub('mk', [], 'call'), A.CallSub('mk', [], 'call')],
+        post=[A.End(), A.Proc('SUB', 'mk', [], [A.Dim([A.Decl('r', None, 'outer')]),
+                                                A.Print([A.Field(R(), 'fl')]),
+                                                A.Assign(A.Field(R(), 'fl'), L('5'))])])
+    add('shared-record', [A.Dim([A.Decl('r', None, 'outer')], shared=True)],
+        [A.Assign(A.Field(R(), 'fl'), L('4')), A.CallSub('mk', [], 'call'), A.Print([A.Field(R(), 'fl')])],
+        post=[A.End(), A.Proc('SUB', 'mk', [], [A.Assign(A.Field(R(), 'fl'), A.Bin('*', A.Field(R(), 'fl'), L('2')))])])
+    return Case('F10', items, packable=False)
+
+
+# ---------------------------------------------------------------------------
+# F11 device statements
+
+F11_ARGS = ['1', '2.5', '3.5', '0', '-1', '40000', '7&', '7#']
+
+
+def f11_descs(tier):
+    return [('F11', tier, k) for k in ['CLS', 'BEEP', 'COLOR', 'LOCATE', 'SCREEN', 'WIDTH', 'VIEWPRINT',
+                                       'SOUND', 'PLAY', 'POKE', 'DEFSEG', 'RANDOMIZE', 'RND', 'PEEK',
+                                       'TIMER', 'INKEY$']]
+
+
+def build_f11(d):
+    _, tier, k = d
+    items = []
+
+    def add(key, stmts, script=None):
+        items.append(Item(stmts + [A.Print([A.Str('done')])],
+                          {'construct': 'device', 'stmt': k, 'argclass': key.split(' ')[0] +
+                           (' ' + key.split(' ', 1)[1] if key.startswith('pattern') else ''),
+                           'key': 'F11 %s %s' % (k, key)},
+                          size=len(key), script=script or {}))
+    args = F11_ARGS if tier != 'quick' else F11_ARGS[:6]
+    if k in ('CLS', 'BEEP'):
+        add('plain', [A.Dev(k)])
+        add('twice', [A.Dev(k), A.Print([A.Str('mid')]), A.Dev(k)])
+    elif k == 'COLOR':
+        for pat in itertools.product([0, 1], repeat=3):
+            if not any(pat):
+                continue
+            a = [N(str(i + 1)) if p else None for i, p in enumerate(pat)]
+            add('pattern %s' % (pat,), [A.Dev(k, a)])
+        for v in args:
+            add('fg ' + v, [A.Dev(k, [N(v)])])
+            add('bg ' + v, [A.Dev(k, [None, N(v)])])
+    elif k == 'LOCATE':
+        for pat in itertools.product([0, 1], repeat=3):
+            if not any(pat):
+                continue
+            a = [N(str(i + 2)) if p else None for i, p in enumerate(pat)]
+            add('pattern %s' % (pat,), [A.Dev(k, a)])
+        for v in args:
+            add('row ' + v, [A.Dev(k, [N(v)])])
+            add('col ' + v, [A.Dev(k, [None, N(v)])])
+            add('both ' + v, [A.Dev(k, [N(v), N(v)])])
+    elif k == 'SCREEN':
+        for v in args:
+            add('mode ' + v, [A.Dev(k, [N(v)])])
+    elif k == 'WIDTH':
+        for v in args:
+            add('cols ' + v, [A.Dev(k, [N(v)])])
+            add('both ' + v, [A.Dev(k, [N(v), N('25')])])
+            add('lines ' + v, [A.Dev(k, [None, N(v)])])
+    elif k == 'VIEWPRINT':
+        add('none', [A.Dev(k)])
+        for v in args:
+            add('top ' + v, [A.Dev(k, [N(v), N('20')])])
+            add('bottom ' + v, [A.Dev(k, [N('1'), N(v)])])
+    elif k == 'SOUND':
+        for v in args:
+            add('freq ' + v, [A.Dev(k, [N(v), N('2')])])
+            add('dur ' + v, [A.Dev(k, [N('440'), N(v)])])
+        add('dur 70000', [A.Dev(k, [N('440'), N('70000')])])
+    elif k == 'PLAY':
+        for s in ['', 'c', 'o3 cde', 'L8 >c']:
+            add('lit %r' % s, [A.Dev(k, [A.Str(s)])])
+        add('expr', [let('m$', A.Str('ab')), A.Dev(k, [A.Bin('+', Vr('m$'), A.Str('c'))])])
+    elif k == 'POKE':
+        for off in ['0', '1.5', '70000', '-1', '65535']:
+            add('off ' + off, [A.Dev(k, [N(off), N('1')])])
+        for v in ['0', '255', '256', '-1', '2.5', '40000', '255.4']:
+            add('val ' + v, [A.Dev(k, [N('10'), N(v)])])
+    elif k == 'DEFSEG':
+        add('none', [A.Dev(k)])
+        for v in ['0', '1.5', '65535', '65536', '-1', '40960', '2.5#']:
+            add('seg ' + v, [A.Dev(k, [N(v)])])
+        add('then-poke', [A.Dev(k, [N('47104')]), A.Dev('POKE', [N('0'), N('65')]), A.Dev(k)])
+    elif k == 'RANDOMIZE':
+        for v in ['0', '1', '2.5', '-3', '70000', '0.1#', '1E+10']:
+            add('seed ' + v, [A.Randomize(N(v))])
+        add('then-rnd', [A.Randomize(N('5')), A.Print([A.Bin('*', A.Builtin('RND'), L('0'))])],
+            {'rnd': [0.25]})
+    elif k == 'RND':
+        for arg in [None, '1', '0', '-1', '2.5', '-2.5', '0.4', '70000']:
+            e1 = A.Builtin('RND', [] if arg is None else [N(arg)])
+            add('arg %s' % arg, [let('r!', e1), P(A.Bin('<', Vr('r!'), L('1')), A.Bin('>=', Vr('r!'), L('0'))),
+                                 let('q!', A.Builtin('RND', [L('0')])), A.Print([A.Bin('=', Vr('r!'), Vr('q!'))]),
+                                 A.Print([A.Bin('*', Vr('r!'), L('4'))])],
+                {'rnd': [0.25, 0.75]})
+        add('int-scale', [A.Print([A.Builtin('INT', [A.Bin('*', A.Builtin('RND'), L('6'))])])] * 1 +
+            [A.Print([A.Builtin('INT', [A.Bin('+', A.Bin('*', A.Builtin('RND'), L('6')), L('1'))])])],
+            {'rnd': [0.0, 0.99999994]})
+    elif k == 'PEEK':
+        for off in ['0', '1.5', '70000', '-1', '2.5']:
+            for ans in [0, 255]:
+                add('off %s ans %d' % (off, ans), [A.Print([A.Builtin('PEEK', [N(off)])])], {'peek': [ans]})
+        add('twice', [P(A.Builtin('PEEK', [L('1')]), A.Builtin('PEEK', [L('2')]))], {'peek': [7, 9]})
+    elif k == 'TIMER':
+        for ans in [0.0, 1.5, 86399.98, 12345.67]:
+            add('ans %r' % ans, [let('t!', A.Builtin('TIMER')), A.Print([A.Bin('>=', Vr('t!'), L('1'))]),
+                                 A.Print([A.Builtin('INT', [Vr('t!')])]),
+                                 A.Print([A.Bin('-', A.Builtin('TIMER'), Vr('t!'))])],
+                {'timer': [ans, ans + 1.0]})
+    elif k == 'INKEY$':
+        for ans in ['', 'a', '\x00H', ' ']:
+            add('ans %r' % ans, [let('k$', A.Builtin('INKEY$')), P(A.Builtin('LEN', [Vr('k$')]), A.Str('[' ), Vr('k$'), A.Str(']')),
+                                 A.IfLine(A.Bin('=', Vr('k$'), A.Str('')), [A.Print([A.Str('none')])],
+                                          [A.Print([A.Builtin('ASC', [Vr('k$')])])])],
+                {'inkey': [ans]})
+        add('loop-until-key', [A.Do('loop_until', A.Bin('<>', Vr('k$'), A.Str('')),
+                                    [let('k$', A.Builtin('INKEY$')), inc('n%')]),
+                               P(Vr('n%'), Vr('k$'))], {'inkey': ['', '', 'q']})
+    return Case('F11', items, packable=False)
+
+
+# ---------------------------------------------------------------------------
+# F12 scripted environments: INPUT / INKEY$ / RND / TIMER answer sequences
+
+F12_LINES = ['5', '-3', '2.5', 'abc', '', '1,2', '70000', ' 7 ', '1e2', '3,x']
+F12_LINES_Q = ['5', '-3', '2.5', 'abc', '1,2', '70000']
+
+
+def f12_descs(tier):
+    out = []
+    for t in ([INTEGER, SINGLE, STRING] if tier == 'quick' else NUM + [STRING]):
+        out.append(('F12i', tier, t))
+    out.append(('F12two', tier))
+    out.append(('F12mix', tier))
+    return out
+
+
+def build_f12i(d):
+    """INPUT of one variable: prompt forms x answer histories of length <= 2 (3 in thorough)"""
+    _, tier, t = d
+    s = SUF[t]
+    lines = F12_LINES_Q if tier == 'quick' else F12_LINES
+    items = []
+    forms = [('plain', None, True, False), ('prompt;', 'n', True, False), ('prompt,', 'n', False, False),
+             ('sameline', 'n', True, True)]
+    depth = 2 if tier == 'quick' else 3
+    hist = []
+    for k in range(0, depth + 1):
+        hist.extend(itertools.product(lines, repeat=k))
+    for ftag, prompt, q, same in forms:
+        if tier == 'quick' and ftag in ('prompt,', 'sameline'):
+            hs = [h for h in hist if len(h) <= 1]
+        else:
+            hs = hist
+        for h in hs:
+            stmts = [A.Input([Vr('v' + s)], prompt, q, same), A.Print([A.Str('got'), ';', Vr('v' + s)]),
+                     A.Input([Vr('w' + s)], None, True, False), A.Print([Vr('w' + s)])]
+            feat = {'construct': 'input', 'lt': t, 'form': ftag, 'nanswers': len(h),
+                    'key': 'F12i %s %s %r' % (t, ftag, h)}
+            items.append(Item(stmts, feat, size=len(h) * 10 + sum(len(x) for x in h), script={'input': list(h)}))
+    return Case('F12', items, packable=False)
+
+
+def build_f12two(d):
+    """INPUT a%, b$ / INPUT a!, b! : field counts and mixed types"""
+    _, tier = d
+    items = []
+    lines = ['1,x', '1', '1,2,3', 'x,1', '2.5,3.5', ',', '1, y z', '-1,-2']
+    for targets in (['a%', 'b$'], ['a!', 'b!'], ['a$', 'b%']):
+        for k in (1, 2):
+            for h in itertools.product(lines, repeat=k):
+                stmts = [A.Input([Vr(x) for x in targets], 'two', True, False),
+                         P(*[Vr(x) for x in targets])]
+                feat = {'construct': 'input-two', 'targets': ' '.join(targets), 'nanswers': k,
+                        'key': 'F12two %s %r' % (targets, h)}
+                items.append(Item(stmts, feat, size=k * 10, script={'input': list(h)}))
+    # INPUT into an element and a field
+    for h in (['4'], ['x', '4'], ['2.5']):
+        stmts = [A.Input([A.Index('ar%', [L('2')])], None, True, False),
+                 A.Input([A.Field(Vr('r'), 'fl')], None, True, False),
+                 P(A.Index('ar%', [L('2')]), A.Field(Vr('r'), 'fl'), A.Field(Vr('r'), 'fa'))]
+        items.append(Item(stmts, {'construct': 'input-two', 'targets': 'elem field', 'nanswers': len(h),
+                                  'key': 'F12two elem %r' % (h,)}, size=30,
+                          pre=[A.TypeDef('rt', [('fa', 'INTEGER'), ('fl', 'LONG')]),
+                               A.Dim([A.Decl('ar%', [(None, L('3'))])]), A.Dim([A.Decl('r', None, 'rt')])],
+                          script={'input': h + ['9']}))
+    return Case('F12', items, packable=False)
+
+
+def build_f12mix(d):
+    """a program that consumes k <= 3 answers of INKEY$ / RND / TIMER and branches on them"""
+    _, tier = d
+    items = []
+    keys = ['', 'a', 'q']
+    rnds = [0.0, 0.25, 0.75]
+    timers = [0.0, 10.5]
+    for ks in itertools.product(keys, repeat=2):
+        for rs in itertools.product(rnds, repeat=(1 if tier == 'quick' else 2)):
+            for tm in timers:
+                stmts = [
+                    let('t0!', A.Builtin('TIMER')),
+                    A.For('i%', L('1'), L('2'), None, [
+                        let('k$', A.Builtin('INKEY$')),
+                        A.Select(Vr('k$'), [([('val', A.Str(''))], [A.Print([A.Str('idle')])]),
+                                            ([('val', A.Str('q'))], [A.Print([A.Str('quit')]), A.Exit('FOR')])],
+                                 [A.Print([A.Str('key '), ';', Vr('k$')]),
+                                  let('d%', A.Bin('+', A.Builtin('INT', [A.Bin('*', A.Builtin('RND'), L('4'))]), L('1'))),
+                                  A.Print([Vr('d%')])])]),
+                    A.IfLine(A.Bin('>', Vr('t0!'), L('5')), [A.Print([A.Str('late')])], [A.Print([A.Str('early')])]),
+                    P(Vr('i%'), Vr('d%'))]
+                script = {'inkey': list(ks), 'rnd': list(rs), 'timer': [tm]}
+                feat = {'construct': 'env-mix', 'key': 'F12mix %r %r %r' % (ks, rs, tm)}
+                items.append(Item(stmts, feat, size=len(repr(script)), script=script))
+    return Case('F12', items, packable=False)
+
+
+# ---------------------------------------------------------------------------
+
+BUILDERS = {
+    'F5': build_f5, 'F5c': build_f5c, 'F6': build_f6, 'F7': build_f7, 'F8': build_f8, 'F8r': build_f8r, 'F8m': build_f8m,
+    'F9c': build_f9c, 'F9s': build_f9s, 'F9d': build_f9d, 'F10a': build_f10a, 'F10r': build_f10r,
+    'F11': build_f11, 'F12i': build_f12i, 'F12two': build_f12two, 'F12mix': build_f12mix,
+}
 
 
 def families(tier):
-    return []
+    return [
+        ('F5', f5_descs(tier) + f5c_descs(tier), {
+            'what': 'statement lists of length <= 2 (3 in thorough: block, inc|END, block), nesting <= 2, over '
+                    '3 simple statements, block IF / ELSE / ELSEIF, one-line IF [ELSE], FOR (6 bound/step menus, '
+                    'EXIT FOR), WHILE, 5 DO forms, EXIT DO, SELECT, GOSUB to label / line number, forward GOTO, END',
+            'conditions': F5_CONDS, 'for_menus': F5_FORS, 'do_forms': F5_DOS,
+            'body_length': 1 if tier == 'quick' else 2, 'programs': len(_f5_programs(tier)),
+            'truth_family': {'forms': F5C_FORMS, 'values': F5C_VALUES,
+                             'what': 'every conditional construct x typed condition values (variable and '
+                                     'expression): true iff non-zero'}}),
+        ('F6', f6_descs(tier), {
+            'what': 'FOR with the counter of each numeric type, bounds/steps at the type limits, fractional '
+                    'bounds and steps; bounds as literals and through DOUBLE variables',
+            'menus': {k: ['%s TO %s STEP %s' % m for m in v] for k, v in F6_MENU.items()}}),
+        ('F7', f7_descs(tier), {
+            'what': 'SELECT CASE: selector type x selector value x two CASE clauses (value, range, IS op, list) '
+                    'x clause value types x with/without CASE ELSE; expression selectors',
+            'selectors': F7_SEL, 'clauses_numeric': [repr(c) for c in F7_CLAUSES_NUM],
+            'clauses_string': [repr(c) for c in F7_CLAUSES_STR],
+            'pairs': 'all ordered pairs' if tier != 'quick' else 'each clause with 2 successors'}),
+        ('F8', f8_descs(tier), {
+            'what': 'SUB / FUNCTION x parameter type x argument form x body action x call syntax x DECLARE; '
+                    'recursion (factorial, fibonacci, by-reference accumulator, mutual); two parameters, '
+                    'aliasing, record and whole-array parameters, elements of arrays of records by reference',
+            'argument_forms': ARG_FORMS, 'body_actions': BODY_ACTIONS}),
+        ('F9', f9_descs(tier), {
+            'what': 'CONST typing / global / local / shadowing; module variables invisible in procedures, '
+                    'DIM SHARED, STATIC, STATIC procedures, same name with other suffix; DEFtype ranges x '
+                    'first letters x suffix / AS overrides x locals, parameters, function results'}),
+        ('F10', f10_descs(tier), {
+            'what': 'arrays: declaration forms x subscripts (constant and computed, in and out of range, '
+                    'fractional, LONG/DOUBLE typed) x element types; LBOUND/UBOUND; dynamic bounds; records: '
+                    'every field of scalar / element / computed element, nested records, conversions into '
+                    'fields, neighbours untouched',
+            'dims': [x[0] for x in F10_DIMS], 'subscripts': F10_SUBS}),
+        ('F11', f11_descs(tier), {
+            'what': 'every device statement x argument-presence patterns x typed / out-of-range arguments',
+            'args': F11_ARGS}),
+        ('F12', f12_descs(tier), {
+            'what': 'INPUT prompt forms x all answer histories up to length 2 (3 in thorough) over a line menu '
+                    '(incl. rejected lines, too few / too many fields); two-variable INPUT; INKEY$/RND/TIMER '
+                    'answer sequences driving a loop',
+            'lines': F12_LINES_Q if tier == 'quick' else F12_LINES}),
+    ]
